@@ -1,4 +1,5 @@
 import SplinkVerif.Drv.Util
+import SplinkVerif.Drv.Arith
 import SplinkVerif.Model.Score
 namespace SplinkVerif.Drv
 open Lean SplinkVerif SplinkVerif.Score
@@ -71,7 +72,17 @@ def handleScore (j : Json) : Except String Json := do
     a.toList.mapM parseLevel
   let psJ ← getArr j "pairs"
   let ps ← psJ.toList.mapM parsePair
-  let thr ← parseThreshold (j.getObjValD "thr")
+  let thr0 ← parseThreshold (j.getObjValD "thr")
+  -- the threshold arguments go through the *translated* `threshold_args_to_match_weight` (Generated/Arith.lean, regenerated
+  -- from misc.py on every run); its answer (a weight, or no threshold) is what the model's `keep` is given
+  let gen := match thr0 with
+    | .none => Gen.threshold_args_to_match_weight (none : Option Float) none
+    | .weight w => Gen.threshold_args_to_match_weight none (some w)
+    | .prob p => Gen.threshold_args_to_match_weight (some p) none
+  let thr : Threshold Float ← match gen with
+    | some (some t) => pure (.weight t)
+    | some none => pure .none
+    | none => throw "threshold_args_to_match_weight raises"
   let out := ps.map fun p =>
     let s := score prior cs p
     Json.mkObj [
